@@ -134,7 +134,34 @@ func (g *c12Gen) action() {
 	x := g.names[g.pick("x", len(g.names))]
 	y := g.names[g.pick("y", len(g.names))]
 	ox := g.vars[x]
-	switch g.pick("action", 13) {
+	switch g.pick("action", 15) {
+	case 13: // a listing is a value of its own: kept, it does not follow later changes of the object, and changing it does not touch the object
+		g.w("snapK = %s(%s);", bn.BKeys, x)
+		g.w("snapV = %s(%s);", bn.BValues, x)
+		k := c12Keys[g.pick("key", len(c12Keys))]
+		v, e := g.val()
+		g.w("%s.%s = %s;", x, k, v)
+		ox.m[k] = e
+		g.mutated(ox)
+		g.w("%s snapK;", bn.KwPrint)
+		g.w("%s snapV;", bn.KwPrint)
+		g.w("%s (%s(snapV) > 0) { snapV[0] = \"overwritten\"; snapK[0] = \"overwritten\"; }", bn.KwIf, bn.BLen)
+		g.w("%s snapV;", bn.KwPrint)
+		return
+	case 14: // the same object as receiver and as value, and as key source
+		k := c12Keys[g.pick("key", len(c12Keys))]
+		if g.reaches(ox, ox) && false {
+			return
+		}
+		g.w("%s %s(%s(%s)) == %s(%s(%s));", bn.KwPrint, bn.BLen, bn.BKeys, x, bn.BLen, bn.BValues, x)
+		g.w("tmpo = {inner: %s, again: %s};", x, x)
+		g.w("tmpo.inner.%s = %d;", k, g.u())
+		v := g.uniq + 10
+		ox.m[k] = gVal{n: v}
+		g.mutated(ox)
+		g.w("%s tmpo.again.%s;", bn.KwPrint, k)
+		g.w("%s tmpo.inner == tmpo.again;", bn.KwPrint)
+		return
 	case 0:
 		o, txt := g.newObj(g.pick("len", 7), true)
 		g.vars[x] = o
@@ -238,6 +265,7 @@ func (g *c12Gen) program(nActions, fault int) string {
 	g.vars = map[string]*gObj{}
 	g.names = []string{"P", "Q", "R"}
 	g.w("%s k = 70, v = 71, name = 72, n2 = 73;", bn.KwVar)
+	g.w("%s snapK = nil, snapV = nil, tmpo = nil;", bn.KwVar)
 	g.w("%s setk(o, v) { o.k = v; }", bn.KwFun)
 	g.w("%s f() { }", bn.KwFun)
 	g.w("%s box = [nil];", bn.KwVar)
@@ -415,6 +443,16 @@ func TestC12(t *testing.T) {
 		if c.Thorough {
 			n = 30000
 		}
+		c.Sub("scale", func(s *Sub) {
+			if c.Shard != 0 {
+				return
+			}
+			c.stepOverride = 40000000
+			defer func() { c.stepOverride = 0 }()
+			for _, n := range c.scaleSizes([]int{100, 1000}, []int{5000, 20000}) {
+				c.c12Program(s, "scale", scaleKeys(n), true, "scale-keys")
+			}
+		})
 		c.Rapid("self-containing-unprinted", n/4, func(rt *rapid.T, s *Sub) {
 			src, nt := cyclicProgram(rt, true)
 			c.c12Program(s, "self-containing-unprinted", src, nt, "cyclic-objects")
